@@ -101,7 +101,8 @@ fn generate(entry: Entry, register: impl FnOnce(&mut TypeGen) -> crux_core::type
         .map_err(|e| e.to_string())?;
         match &gen.state {
             State::Generating(registry) => Ok((codec::schema_of(registry), count_files(dir))),
-            State::Registering(..) => Err("generation returned Ok but left no registry behind".to_string()),
+            #[allow(unreachable_patterns)]
+            _ => Err("generation returned Ok but left no registry behind".to_string()),
         }
     });
     match r {
